@@ -29,7 +29,8 @@ def literal_of(kind, v):
     return None
 
 
-OPASSIGN_CARRIERS = ["opassign-variable", "opassign-element", "opassign-field", "opassign-map-entry", "opassign-captured"]
+OPASSIGN_CARRIERS = ["opassign-variable", "opassign-element", "opassign-field", "opassign-map-entry", "opassign-captured",
+                     "opassign-value-variable", "opassign-value-element", "opassign-value-field", "opassign-value-map-entry"]
 
 
 def cell_program(op, lk, a, rk, b, carrier="variable"):
@@ -62,6 +63,15 @@ def cell_program(op, lk, a, rk, b, carrier="variable"):
         lines = ["class P {", f"\tx: {lk}", f"\tconstructor(self, x: {lk}) {{", "\t\tself.x = x", "\t}", "}"] + lines + ["pp = P(a)", f"pp.x {op}= b", "print pp.x"]
     elif carrier == "opassign-map-entry":
         lines += [f"ma = map[str, {lk}]", 'ma["k"] = a', f'ma["k"] {op}= b', 'print get ma["k"]']
+    elif carrier == "opassign-value-variable":
+        # the op-assignment used as an EXPRESSION: its value is the new value of the target
+        lines += [f"print (a {op}= b)", "print a"]
+    elif carrier == "opassign-value-element":
+        lines += [f"la: [{lk}...] = [a, a]", f"print (la[1] {op}= b)", "print la[1]"]
+    elif carrier == "opassign-value-field":
+        lines = ["class P {", f"\tx: {lk}", f"\tconstructor(self, x: {lk}) {{", "\t\tself.x = x", "\t}", "}"] + lines + ["pp = P(a)", f"print (pp.x {op}= b)", "print pp.x"]
+    elif carrier == "opassign-value-map-entry":
+        lines += [f"ma = map[str, {lk}]", 'ma["k"] = a', f'print (ma["k"] {op}= b)', 'print get ma["k"]']
     elif carrier == "opassign-captured":
         lines += ["fc = fn() {", f"\ta {op}= b", "}", "fc()", "print a"]
     elif carrier == "literal":
@@ -125,7 +135,7 @@ class C05(Check):
             "right value from the per-kind boundary sets), operands reaching the operator through run-time variables and - for 2 (thorough 3) values per kind - "
             "through 8 other carriers (literal operands evaluated by the compiler, list element, object field incl. inside a method, parameter, captured variable, function result, map value, unwrapped optional); "
             "two cells of one operator on the same digits but other operand kinds, one after the other in ONE program (the second must behave as it does alone); "
-            "the five arithmetic operators also as OP-ASSIGNMENT onto a variable, a list element, an object field, a map entry and a captured variable (8 values per kind, cells whose promoted kind is the target's kind); "
+            "the five arithmetic operators also as OP-ASSIGNMENT onto a variable, a list element, an object field, a map entry and a captured variable, and as an EXPRESSION whose value is printed next to the target's new value (8 values per kind, cells whose promoted kind is the target's kind); "
             "unary minus on every int/bigint/float value and `!` on both booleans.  Non-trivial = the compiler accepts the "
             "cell; distinct = distinct (op, kinds, values).")
     assumptions = ["dev profile (integer-overflow checks on), as the repository's own suite",
@@ -297,7 +307,7 @@ class C05(Check):
                 bad("no-failure", f"{desc}: expected a failure ({exp}), got value {got}")
             outcome = f"fail-{res.cls}"
         else:
-            want = [N.typed(*exp)] * (2 if (case[0] == "bin" and car == "field") else 1)
+            want = [N.typed(*exp)] * (2 if (case[0] == "bin" and (car == "field" or car.startswith("opassign-value"))) else 1)
             if case[0] == "bin" and car.startswith("opassign"):
                 got = [g.lstrip("&") for g in got]
                 if exp[0] != lk:
